@@ -4,6 +4,7 @@
 id=$1; v=$2
 src=/tmp/seed/$id
 wt=/tmp/cw/$id$v
+[ -f /tmp/seed/rebased/${id}_$v.diff ] && REB=/tmp/seed/rebased/${id}_$v.diff
 out=$src/confirm_$v.txt
 mkdir -p /tmp/cw
 git -C /repo worktree remove --force $wt 2>/dev/null
@@ -15,7 +16,8 @@ cp $src/demo_$v.py $wt/demo_$v.py
 echo "== demo on clean tree"
 timeout 1800 /venv/bin/python demo_$v.py > /tmp/cw/$id$v.clean.log 2>&1; echo "clean_exit=$?"
 tail -3 /tmp/cw/$id$v.clean.log
-if git apply --check $src/patch_$v.diff 2>/dev/null; then git apply $src/patch_$v.diff; echo "patch_applies=yes";
+if [ -n "$REB" ] && git apply --check $REB 2>/dev/null; then git apply $REB; echo "patch_applies=rebased";
+elif git apply --check $src/patch_$v.diff 2>/dev/null; then git apply $src/patch_$v.diff; echo "patch_applies=yes";
 else git apply --3way $src/patch_$v.diff 2>&1 | tail -2; echo "patch_applies=3way"; fi
 git diff --stat | tail -3
 echo "== demo on patched tree"
